@@ -5,9 +5,11 @@
    flush token).  [agree] replays the items on the model: client threads run first as far as they can,
    then the writer; at the writer's select the case is the one that explains the next observed callback.
    Free-running case: the totally ordered event log of an uncontrolled run is judged by the history
-   predicates of the theorems (log_safe, completeness, final store). *)
+   predicates of the theorems (log_safe, completeness, final store).
+   Faulty case: a free-running log of a run over a store whose n-th Commit / Batched call returns an error, judged by
+   the writer protocol with faults (FaultModel.fck_run, the language of Fault.safety_faults). *)
 From Coq Require Import List Bool Arith ZArith.
-From Verif.C08_Batch Require Import Model.
+From Verif.C08_Batch Require Import Model FaultModel.
 Import ListNotations.
 
 Inductive item :=
@@ -238,7 +240,22 @@ Definition free_ok (l : list event) (nobj : nat) (final : list (option nat)) (st
                           end) (seq 0 nobj)))
   end.
 
+(* ---- runs in which the store was made to fail (chronological log incl. the failed call and the panic) ----
+   accepted by the writer protocol with faults (FaultModel.fck_step: the refused commit carries exactly the open
+   mutations, no BatchWriteDone is due, nothing but the panic follows), the fault was reached and the writer panicked
+   (phase 2), the final store holds the successfully committed mutations only. *)
+Definition fault_ok (l : list fev) (nobj : nat) (final : list (option nat)) : bool :=
+  match fck_run fck0 l with
+  | None => false
+  | Some k =>
+      Nat.eqb (fk_ph k) 2 &&
+      match k_pend (fk k) with [] => true | _ => false end &&
+      store_eqb (k_store (fk k)) 0 final &&
+      forallb (fun o => optnat_eqb (k_store (fk k) o) (last_w (committed (evs l)) o)) (seq 0 nobj)
+  end.
+
 Inductive case :=
+| Faulty (l : list fev) (nobj : nat) (final : list (option nat))
 | Scripted (q b : nat) (wgate : nat) (ops : list op) (holds : list (nat * nat)) (items : list (item * obs)) (final : list (option nat))
 | Free (l : list event) (nobj : nat) (final : list (option nat)) (stopped : bool).
 
@@ -250,6 +267,7 @@ Definition case_ok (cs : case) : bool :=
       | None => false
       end
   | Free l nobj final stopped => free_ok l nobj final stopped
+  | Faulty l nobj final => fault_ok l nobj final
   end.
 
 Fixpoint mismatches_from (i : nat) (cs : list case) : list nat :=
